@@ -199,7 +199,7 @@ def case_generator(name, opts, dtype, backend):
                                 from harness.interp import HarnessError
 
                                 raise HarnessError("C13: non-finite tolerance")
-                            if g.size and pattern == "dense" and binding == "contiguous":
+                            if g.size and pattern == "dense" and binding == "contiguous" and not variant.startswith("large"):
                                 # negative control: the comparison must see a 0.1 % error in one cell
                                 e_bad = e.copy()
                                 e_bad[e_bad.size // 2] += 1e-3 * (1 + abs(e_bad[e_bad.size // 2]))
@@ -322,7 +322,41 @@ def case_transient(name, opts, dtype):
     return CaseResult(fails=fails, states=states, transitions=3, traces=3, outcome=f"transient:{tag}:{dtype}")
 
 
-CASES = {"generator": case_generator, "inplace": case_inplace, "transient": case_transient}
+def case_stiff(name, opts, dtype):
+    """Brinkmann kernels with a stiff penalty (2.75e6) and a target that is exactly zero: the documented quotient
+    (u + lambda chi u_b) / (1 + lambda chi) is then u / (1 + lambda chi) to a few ulps of ITSELF; a rearranged
+    ("correction") form loses all digits there.  Compared element by element relative to the expected value."""
+    real_t = np.dtype(dtype).type
+    eps = float(np.finfo(real_t).eps)
+    sp = kernelspec.spec(name, opts)
+    d = registry.gen_dim(name)
+    shim.set_backend("interp")
+    shape = shapes_for(name, opts)[3]
+    fn, aux = registry.instantiate(name, opts, real_t, num_threads=False, shape=shape)
+    views, A = {}, {}
+    for k, (arg, kind, role) in enumerate(sp["arrays"]):
+        shp = shape if kind in ("s", "s+") else (d, *shape)
+        vals = _values(shp, k, kind, "dense")
+        if "penalty" in arg:
+            vals = np.zeros(shp)
+        views[arg] = np.full(shp, np.nan, dtype=real_t) if role == "out" else vals.astype(real_t)
+        A[arg] = views[arg].astype(np.float64).copy()
+    scal = {k: (2.75e6 if k == "penalty_factor" else ([0.0] * len(v) if isinstance(v, list) else 0.0)) for k, v in sp["scalars"].items()}
+    s_pass, s_mean = kernelspec.scalar_variant(scal, "dyadic:float", real_t)
+    fn(**views, **s_pass)
+    fails = []
+    out_arg = next(a for a, _k, r in sp["arrays"] if r == "out")
+    exp, mask = sp["ref"](A, s_mean, aux)[out_arg]
+    got = views[out_arg].astype(np.float64)
+    rel = np.abs(got - exp) / np.maximum(np.abs(exp), 1e-300)
+    sel = np.abs(exp) > 0
+    if not np.all(rel[sel] <= 64 * eps):
+        i = int(np.argmax(np.where(sel, rel, 0).ravel()))
+        fails.append(Fail(f"{name}:{opts.get('field_type')}:stiff-penalty", "stiff penalty towards a zero target: the output is not the documented quotient to a few ulps of itself", got=float(got.ravel()[i]), want=float(np.asarray(exp).ravel()[i]), relative_error=float(rel.ravel()[i]), dtype=dtype))
+    return CaseResult(fails=fails, states=int(sel.sum()), transitions=1, traces=1, outcome=f"stiff:{name}:{opts.get('field_type')}:{dtype}:{int(sel.sum()) > 0}")
+
+
+CASES = {"generator": case_generator, "inplace": case_inplace, "transient": case_transient, "stiff": case_stiff}
 
 
 def run(r) -> None:
@@ -338,6 +372,7 @@ def run(r) -> None:
     r.run_cases("generators", "generator", cases)
     inpl = [dict(name=n, opts=o, dtype=dt) for n, o in registry.entries() if any(e in n for e in ELEMENTWISE) and not o.get("fixed") for dt in ("float64", "float32")]
     r.run_cases("in-place-calls", "inplace", inpl)
+    r.run_cases("stiff-penalty", "stiff", [dict(name=n, opts=o, dtype=dt) for n, o in registry.entries() if "brinkmann" in n for dt in ("float64", "float32")])
     r.run_cases("transient-view-history", "transient", [dict(name=n, opts=o, dtype=dt) for n, o in registry.entries() for dt in ("float64", "float32")])
     r.bounds = {"generators_x_options": len(registry.entries()), "dtypes": 2, "shapes_per_generator": "4 from the minimal size up + one long axis (70 / 36 cells) in every position", "bindings": BINDINGS, "patterns": PATTERNS, "scalar_arguments": kernelspec.SCALAR_VARIANTS, "call_styles": ["keyword", "positional (wrapper closures)"], "backends": ["interp"] if quick else ["interp", "jit"]}
     r.extra["rule"] = "one state per (generator option tuple, dtype, shape, binding, pattern, array argument): value on the documented region vs closed form, raw bytes everywhere else"
